@@ -1077,7 +1077,7 @@ class C14(Prop):
                   "every Process* call ends as success-without-message or eslESYNTAX-with-message (never a crash or internal exception), rejected settings change nothing; VerifyConfig succeeds iff all requirements and incompatibilities hold; "
                   "IsUsed = not IsDefault and IsOn. Round 6: the byte-level allocation layer of set_option (do_alloc, valloc[], block reuse across config files) is modelled and proved to erase to the abstract model for every history (no block overrun or read without terminator; valloc = max(old, strlen+1) after a config-file setting, 0 after any other); "
                   "Create on ANY table returns NULL iff a name lacks '-' or a default fails its own check, ill-formed lists are reported as eslEINVAL at first use, never a crash; esl_opt_DisplayHelp's output is the documented function of the table (one aligned line per option of the docgroup, defaults/ranges for all lines or none, eslEINVAL iff even the bare layout does not fit; every line <= textwidth+2); "
-                  "esl_opt_SpoofCmdline lists exactly the options that were set and are on; an accepted integer satisfies its range as esl_opt_GetInteger returns it (also beyond the int range); the strtod model (decimal -> nearest binary64, ties to even, subnormals, overflow) is exact on representable values, a nearest value otherwise, and monotone, so the real range test never reorders. The hand model is tied to the working tree by an exact differential run (12000 cases per quick run: random well-formed tables x sources, 8% ill-formed tables, multi-config-file histories with values of decreasing/equal/increasing length, help/spoof calls, 14000 strtod strings compared bit for bit with glibc); a divergence or monitor failure is a concrete failing input.")
+                  "esl_opt_SpoofCmdline lists exactly the options that were set and are on; esl_getopts_CreateDefaultApp returns the object iff the command line parses, the configuration verifies, -h is off and the argument count is the required one (otherwise it exits); an accepted integer satisfies its range as esl_opt_GetInteger returns it (also beyond the int range); the strtod model (decimal -> nearest binary64, ties to even, subnormals, overflow) is exact on representable values, a nearest value otherwise, and monotone, so the real range test never reorders. The hand model is tied to the working tree by an exact differential run (12000 cases per quick run: random well-formed tables x sources, 8% ill-formed tables, multi-config-file histories with values of decreasing/equal/increasing length, help/spoof calls, 14000 strtod strings compared bit for bit with glibc); a divergence or monitor failure is a concrete failing input.")
     level_note = ("Trusted: Lean kernel + propext/Classical.choice/Quot.sound; fidelity of the hand model (incl. its strtol/strtod/strtok/fgets models) is checked, not proved, by the differential run; "
                   "'+/- prefixed booleans' clause is vacuous in this version (a '+' word is an argument: theorem plus_word_is_argument); history theorems for well-formed tables (ill-formed tables: Create / first-use theorems without hypothesis, IllFormed.lean); reals restricted to <= 15 significant digits (DBL_DIG) and the normal exponent range, where decimal order = double order; "
                   "integer, character and real range strings of the documented forms are proved to mean the intended bounds (reals: order of the denoted rationals; lower bounds written as plain decimal literals are proved to be read exactly; exponent spellings only by examples and the differential run). Round 6: the real range theorems still speak about exact decimals (agreeing with the doubles for <= 15 significant digits: not proved); the rounding model of Round.lean is proved exact/nearest/monotone and compared bit for bit with glibc's atof, but verify_real_range's theorems are not yet restated over it.")
